@@ -1,15 +1,577 @@
-//! C19 harness (stub).
+//! C19: ANI estimates from containment are monotone, bounded and inside their CI.
+//!
+//! Ops (floats travel as 16-hex-digit bit patterns, `nan` for any NaN, `-` = None):
+//!   point  <c> <k>                          bits of sourmash::ani_utils::ani_from_containment
+//!   prange <c> <k>                          in01 | out01 <bits>
+//!   mono   <c1> <c2> <k>                    lt|eq|gt : order of the two outputs
+//!   monole <c1> <c2> <k>                    le | inv  (c1 <= c2: outputs never in the wrong order)
+//!   ci     <c> <k> <scaled> <n> <conf>      degenerate | in01 ordered | diagnostic (see `verdict`)
+//!   cib    <c> <k> <scaled> <n> <conf>      bits of (low, high) | err <Variant>
+//!   ref    point|ci|varn|q|pnc … <published bits…>    close | far …   (|computed − published| < f64::EPSILON)
+//!   pin    point|ci …            <bits…>    the bits on the current tree (compared with the bits in the line)
+//!   gather <k> <scaled> <conf> <calc_ci> <orig> <remaining> <match> <match_size>
+//!                                           ANI-related fields of calculate_gather_stats
+//!   mid    q|expn|varn|expsq|pnc|f12 …      private intermediates — see `real_src` below
+//!
+//! `point`, `ci`, `cib`, `ref point|ci`, `pin`, `gather` run the real crate (`sourmash::ani_utils`,
+//! `sourmash::index::calculate_gather_stats`).  The functions r1_to_q, exp_n_mutated, var_n_mutated,
+//! exp_n_mutated_squared and the closures term_1..3 / var_direct / f1 / f2 are private to
+//! `ani_utils.rs` and not reachable through any pub fn, so the `mid` ops compile **the same source
+//! file** a second time into this binary (`include!("/repo/src/core/src/ani_utils.rs")`) next to two
+//! shims that stand in for exactly the two externals the property excludes from the bit-for-bit
+//! comparison: `roots::find_root_brent` (the shim evaluates the closure it is handed at a probe point
+//! and records the value) and `statrs` probit (the shim returns the z given on the request line).
+use sourmash::ani_utils::{ani_ci_from_containment, ani_from_containment};
+use sourmash::encodings::HashFunctions;
+use sourmash::index::calculate_gather_stats;
+use sourmash::signature::Signature;
+use sourmash::sketch::minhash::KmerMinHash;
+use sourmash::sketch::Sketch;
+#[allow(unused_imports)]
+use sourmash::Error;
 use verif_harness::*;
 
-fn gen(_a: &Args) {
-    let mut o = Out::new();
-    o.case("stub");
+#[allow(dead_code, unused_imports, clippy::all)]
+mod real_src {
+    use std::cell::Cell;
+    thread_local! {
+        pub static Z: Cell<f64> = const { Cell::new(0.0) };
+        pub static PROBE: Cell<f64> = const { Cell::new(0.0) };
+        pub static SEEN: Cell<[f64; 2]> = const { Cell::new([0.0; 2]) };
+        pub static NSEEN: Cell<usize> = const { Cell::new(0) };
+        pub static PROBIT_ARG: Cell<f64> = const { Cell::new(0.0) };
+    }
+    /// stand-in for the `roots` crate: evaluates the function at the probe point, records it
+    pub mod roots {
+        pub struct SimpleConvergency {
+            pub eps: f64,
+            pub max_iter: usize,
+        }
+        pub fn find_root_brent<F: Fn(f64) -> f64>(
+            _a: f64,
+            _b: f64,
+            f: F,
+            _c: &mut SimpleConvergency,
+        ) -> Result<f64, ()> {
+            let y = f(super::PROBE.with(|p| p.get()));
+            let i = super::NSEEN.with(|n| {
+                let v = n.get();
+                n.set(v + 1);
+                v
+            });
+            super::SEEN.with(|s| {
+                let mut a = s.get();
+                a[i % 2] = y;
+                s.set(a);
+            });
+            Err(())
+        }
+    }
+    /// stand-in for `statrs`: the quantile is the z carried by the request line
+    pub mod statrs {
+        pub mod distribution {
+            pub trait ContinuousCDF {
+                fn inverse_cdf(&self, p: f64) -> f64;
+            }
+            pub struct Normal;
+            impl Normal {
+                pub fn new(_m: f64, _s: f64) -> Result<Normal, ()> {
+                    Ok(Normal)
+                }
+            }
+            impl ContinuousCDF for Normal {
+                fn inverse_cdf(&self, p: f64) -> f64 {
+                    super::super::PROBIT_ARG.with(|c| c.set(p));
+                    super::super::Z.with(|z| z.get())
+                }
+            }
+        }
+    }
+    include!("/repo/src/core/src/ani_utils.rs");
+
+    pub fn x_r1_to_q(k: f64, r1: f64) -> f64 {
+        r1_to_q(k, r1)
+    }
+    pub fn x_exp_n_mutated(l: f64, k: f64, r1: f64) -> f64 {
+        exp_n_mutated(l, k, r1)
+    }
+    pub fn x_var_n_mutated(l: f64, k: f64, r1: f64) -> Result<f64, crate::Error> {
+        var_n_mutated(l, k, r1, None)
+    }
+    pub fn x_exp_n_mutated_squared(l: f64, k: f64, r1: f64) -> Result<f64, crate::Error> {
+        exp_n_mutated_squared(l, k, r1)
+    }
+    pub fn x_pnc(ani: f64, k: f64, f_scaled: f64, n: f64) -> Result<f64, crate::Error> {
+        get_exp_probability_nothing_common(ani, k, f_scaled, n)
+    }
+    /// (f1(pest), f2(pest), argument handed to probit) of the real ani_ci_from_containment body
+    pub fn x_f12(c: f64, k: f64, scaled: u64, n: u64, conf: Option<f64>, z: f64, pest: f64) -> (f64, f64, f64) {
+        Z.with(|c| c.set(z));
+        PROBE.with(|c| c.set(pest));
+        NSEEN.with(|c| c.set(0));
+        SEEN.with(|c| c.set([f64::NAN; 2]));
+        let _ = ani_ci_from_containment(c, k, scaled, n, conf);
+        let s = SEEN.with(|c| c.get());
+        (s[0], s[1], PROBIT_ARG.with(|c| c.get()))
+    }
+}
+
+fn fb(x: f64) -> String {
+    if x.is_nan() {
+        "nan".into()
+    } else {
+        format!("{:016x}", x.to_bits())
+    }
+}
+fn pf(s: &str) -> f64 {
+    f64::from_bits(u64::from_str_radix(s, 16).unwrap())
+}
+fn pconf(s: &str) -> Option<f64> {
+    if s == "-" {
+        None
+    } else {
+        Some(pf(s))
+    }
+}
+fn err_name(e: &sourmash::Error) -> String {
+    let d = format!("{:?}", e);
+    let n: String = d.chars().take_while(|c| c.is_alphanumeric()).collect();
+    format!("err {}", n)
+}
+
+const TOL: f64 = 1e-12;
+
+fn verdict(c: f64, k: f64, scaled: u64, n: u64, conf: Option<f64>) -> String {
+    match ani_ci_from_containment(c, k, scaled, n, conf) {
+        Err(e) => err_name(&e),
+        Ok((lo, hi)) => {
+            let p = ani_from_containment(c, k);
+            if c == 0.0 || c == 1.0 {
+                return if lo == p && hi == p && p == c {
+                    "degenerate".into()
+                } else {
+                    format!("nondegenerate low={} point={} high={}", fb(lo), fb(p), fb(hi))
+                };
+            }
+            let in01 = (0.0..=1.0).contains(&lo) && (0.0..=1.0).contains(&hi);
+            let ordered = lo <= p + TOL && p <= hi + TOL;
+            if in01 && ordered {
+                "in01 ordered".into()
+            } else {
+                format!(
+                    "{} {} low={} point={} high={}",
+                    if in01 { "in01" } else { "out01" },
+                    if ordered { "ordered" } else { "unordered" },
+                    fb(lo),
+                    fb(p),
+                    fb(hi)
+                )
+            }
+        }
+    }
+}
+
+fn close(x: f64, published: f64) -> bool {
+    (x - published).abs() < f64::EPSILON
+}
+
+fn mh(k: u32, scaled: u64, hashes: &[u64]) -> KmerMinHash {
+    let mut m = KmerMinHash::new(scaled, k, HashFunctions::Murmur64Dna, 42, false, 0);
+    for h in hashes {
+        m.add_hash(*h);
+    }
+    m
+}
+
+fn opt_bits(x: Option<f64>) -> String {
+    match x {
+        None => "-".into(),
+        Some(v) => fb(v),
+    }
 }
 
 fn step(_: &mut (), ws: &[&str]) -> String {
+    let u = |i: usize| -> u64 { ws[i].parse().unwrap() };
     match ws[0] {
         "case" => "ok".into(),
+        "point" => fb(ani_from_containment(pf(ws[1]), u(2) as f64)),
+        "prange" => {
+            let p = ani_from_containment(pf(ws[1]), u(2) as f64);
+            if (0.0..=1.0).contains(&p) {
+                "in01".into()
+            } else {
+                format!("out01 {}", fb(p))
+            }
+        }
+        "mono" | "monole" => {
+            let k = u(3) as f64;
+            let (c1, c2) = (pf(ws[1]), pf(ws[2]));
+            let (a, b) = (ani_from_containment(c1, k), ani_from_containment(c2, k));
+            if ws[0] == "mono" {
+                (if a < b {
+                    "lt"
+                } else if a == b {
+                    "eq"
+                } else if a > b {
+                    "gt"
+                } else {
+                    "unordered"
+                })
+                .into()
+            } else if (c1 <= c2 && a <= b) || (c1 >= c2 && a >= b) {
+                "le".into()
+            } else {
+                format!("inv {} {}", fb(a), fb(b))
+            }
+        }
+        "ci" => verdict(pf(ws[1]), u(2) as f64, u(3), u(4), pconf(ws[5])),
+        "cib" => match ani_ci_from_containment(pf(ws[1]), u(2) as f64, u(3), u(4), pconf(ws[5])) {
+            Ok((lo, hi)) => format!("{} {}", fb(lo), fb(hi)),
+            Err(e) => err_name(&e),
+        },
+        "ref" | "pin" => {
+            // the computed values, then either closeness to the published ones or the bits
+            let (vals, exp_at): (Vec<f64>, usize) = match ws[1] {
+                "point" => (vec![ani_from_containment(pf(ws[2]), u(3) as f64)], 4),
+                "ci" => match ani_ci_from_containment(pf(ws[2]), u(3) as f64, u(4), u(5), pconf(ws[6])) {
+                    Ok((lo, hi)) => (vec![lo, hi], 7),
+                    Err(e) => return err_name(&e),
+                },
+                "varn" => match real_src::x_var_n_mutated(u(2) as f64, u(3) as f64, pf(ws[4])) {
+                    Ok(v) => (vec![v], 5),
+                    Err(e) => return err_name(&e),
+                },
+                "q" => (vec![real_src::x_r1_to_q(u(2) as f64, pf(ws[3]))], 4),
+                "pnc" => {
+                    let k = u(3) as f64;
+                    let ani = ani_from_containment(pf(ws[2]), k);
+                    match real_src::x_pnc(ani, k, 1.0 / (u(4) as f64), u(5) as f64) {
+                        Ok(v) => (vec![v], 6),
+                        Err(e) => return err_name(&e),
+                    }
+                }
+                _ => return "bad-op".into(),
+            };
+            if ws[0] == "pin" {
+                return vals.iter().map(|v| fb(*v)).collect::<Vec<_>>().join(" ");
+            }
+            let exp: Vec<f64> = ws[exp_at..].iter().map(|s| pf(s)).collect();
+            if exp.len() == vals.len() && vals.iter().zip(&exp).all(|(v, e)| close(*v, *e)) {
+                "close".into()
+            } else {
+                format!("far {}", vals.iter().map(|v| fb(*v)).collect::<Vec<_>>().join(" "))
+            }
+        }
+        "mid" => match ws[1] {
+            "q" => fb(real_src::x_r1_to_q(u(2) as f64, pf(ws[3]))),
+            "expn" => fb(real_src::x_exp_n_mutated(u(2) as f64, u(3) as f64, pf(ws[4]))),
+            "varn" => match real_src::x_var_n_mutated(u(2) as f64, u(3) as f64, pf(ws[4])) {
+                Ok(v) => fb(v),
+                Err(e) => err_name(&e),
+            },
+            "expsq" => match real_src::x_exp_n_mutated_squared(u(2) as f64, u(3) as f64, pf(ws[4])) {
+                Ok(v) => fb(v),
+                Err(e) => err_name(&e),
+            },
+            // mid pnc <ani> <k> <scaled> <n>
+            "pnc" => match real_src::x_pnc(pf(ws[2]), u(3) as f64, 1.0 / (u(4) as f64), u(5) as f64) {
+                Ok(v) => fb(v),
+                Err(e) => err_name(&e),
+            },
+            // mid f12 <c> <k> <scaled> <n> <conf> <z> <pest>
+            "f12" => {
+                let (a, b, parg) =
+                    real_src::x_f12(pf(ws[2]), u(3) as f64, u(4), u(5), pconf(ws[6]), pf(ws[7]), pf(ws[8]));
+                format!("{} {} {}", fb(a), fb(b), fb(parg))
+            }
+            _ => "bad-op".into(),
+        },
+        "gather" => {
+            let k = u(1) as u32;
+            let scaled = u(2);
+            let conf = pconf(ws[3]);
+            let calc_ci = ws[4] == "1";
+            let orig = mh(k, scaled, &parse_nats(ws[5]));
+            let remaining = mh(k, scaled, &parse_nats(ws[6]));
+            let mat = mh(k, scaled, &parse_nats(ws[7]));
+            let match_size = u(8) as usize;
+            let mut sig = Signature::default();
+            sig.push(Sketch::MinHash(mat.clone()));
+            match calculate_gather_stats(&orig, remaining, sig.into(), match_size, 0, 0, 0, false, calc_ci, conf) {
+                Err(e) => err_name(&e),
+                Ok((r, _)) => {
+                    let kf = k as f64;
+                    let nu = mat.n_unique_kmers();
+                    let ci_same = |c: f64, lo: Option<f64>, hi: Option<f64>| -> String {
+                        if !calc_ci {
+                            return if lo.is_none() && hi.is_none() { "none".into() } else { "unexpected".into() };
+                        }
+                        match ani_ci_from_containment(c, kf, scaled, nu, conf) {
+                            Ok((l, h)) if lo.map(f64::to_bits) == Some(l.to_bits()) && hi.map(f64::to_bits) == Some(h.to_bits()) => {
+                                "same".into()
+                            }
+                            _ => format!("diff:{}:{}", opt_bits(lo), opt_bits(hi)),
+                        }
+                    };
+                    format!(
+                        "{} {} {} {} {} {} {} {} {} {}",
+                        fb(r.f_orig_query()),
+                        fb(r.f_match_orig()),
+                        fb(r.f_unique_to_query()),
+                        fb(r.f_match()),
+                        fb(r.query_containment_ani()),
+                        fb(r.match_containment_ani()),
+                        fb(r.average_containment_ani()),
+                        fb(r.max_containment_ani()),
+                        ci_same(r.f_unique_to_query(), r.query_containment_ani_ci_low(), r.query_containment_ani_ci_high()),
+                        ci_same(r.f_match(), r.match_containment_ani_ci_low(), r.match_containment_ani_ci_high()),
+                    )
+                }
+            }
+        }
         _ => "bad-op".into(),
+    }
+}
+
+// ------------------------------------------------------------------------------------ generator
+
+fn b(x: f64) -> String {
+    format!("{:016x}", x.to_bits())
+}
+fn conf_s(c: Option<f64>) -> String {
+    match c {
+        None => "-".into(),
+        Some(v) => b(v),
+    }
+}
+
+const KS: [u64; 9] = [7, 11, 15, 21, 25, 31, 41, 47, 51];
+const CONFS: [Option<f64>; 6] = [Some(0.8), Some(0.9), None, Some(0.95), Some(0.975), Some(0.99)];
+
+/// numbers of unique k-mers for one scaled: from ten hashes up to beyond the i32 range
+fn n_values(scaled: u64, r: &mut Rng, many: bool) -> Vec<u64> {
+    let mut v = vec![10 * scaled, 11 * scaled, 100 * scaled, 1000 * scaled, 10_000 * scaled];
+    v.push(r.range(10, 100_000) * scaled);
+    if many {
+        v.push(1_000_000 * scaled);
+        v.push(r.range(10, 10_000_000) * scaled);
+    }
+    // around the `as i32` saturation point and far beyond it (multiples of scaled, as n_unique_kmers is)
+    let two31 = 1u64 << 31;
+    let m = two31 / scaled;
+    for q in [m.saturating_sub(1), m, m + 1, 4 * m + 3] {
+        if q >= 10 {
+            v.push(q * scaled);
+        }
+    }
+    v.push((1u64 << 40) / scaled * scaled);
+    if many {
+        v.push((1u64 << 53) / scaled * scaled + scaled);
+        v.push((u64::MAX / scaled) * scaled);
+    }
+    v.sort();
+    v.dedup();
+    v
+}
+
+fn gen(a: &Args) {
+    let mut r = Rng::new(a.seed);
+    let mut o = Out::new();
+    let thorough = a.tier == "thorough";
+
+    // ---- stream 1: point estimate on the grid, every k
+    for k in 7..=51u64 {
+        o.case(&format!("point k={}", k));
+        o.op(&format!("point {} {}", b(0.0), k));
+        o.op(&format!("point {} {}", b(-0.0), k));
+        o.op(&format!("point {} {}", b(1.0), k));
+        o.op(&format!("ci {} {} 1000 100000 -", b(0.0), k));
+        o.op(&format!("ci {} {} 1000 100000 -", b(1.0), k));
+        o.op(&format!("cib {} {} 1000 100000 -", b(0.0), k));
+        o.op(&format!("cib {} {} 1000 100000 -", b(1.0), k));
+        let step = if thorough { 1 } else { 4 };
+        let mut i = 1;
+        while i < 400 {
+            let c = i as f64 / 400.0;
+            o.op(&format!("point {} {}", b(c), k));
+            o.op(&format!("prange {} {}", b(c), k));
+            // grid neighbours are 1/400 apart: strictly ordered outputs are required
+            let c2 = (i + step).min(400) as f64 / 400.0;
+            o.op(&format!("mono {} {} {}", b(c), b(c2), k));
+            o.op(&format!("mono {} {} {}", b(c2), b(c), k));
+            i += step;
+        }
+        // extremes of (0,1): smallest subnormal, smallest normal, next below 1
+        for c in [f64::from_bits(1), f64::MIN_POSITIVE, 1e-300, 1e-18, 1.0 - f64::EPSILON / 2.0, 1.0 - f64::EPSILON] {
+            o.op(&format!("point {} {}", b(c), k));
+            o.op(&format!("prange {} {}", b(c), k));
+        }
+        o.op(&format!("mono {} {} {}", b(0.0), b(f64::from_bits(1)), k));
+        o.op(&format!("mono {} {} {}", b(1.0 - 1e-9), b(1.0), k));
+    }
+    let n = if thorough { 60_000 } else { 4_000 };
+    for i in 0..n {
+        if i % 1000 == 0 {
+            o.case("point-random");
+        }
+        let k = r.range(7, 51);
+        // random doubles of (0,1) at every magnitude
+        let c = match r.below(3) {
+            0 => (r.next() >> 11) as f64 / (1u64 << 53) as f64,
+            1 => f64::from_bits(r.range(1, 1.0f64.to_bits() - 1)),
+            _ => 1.0 - (r.next() >> 11) as f64 / (1u64 << 53) as f64 * 2f64.powi(-(r.range(1, 40) as i32)),
+        };
+        if c <= 0.0 || c >= 1.0 {
+            continue;
+        }
+        o.op(&format!("point {} {}", b(c), k));
+        o.op(&format!("prange {} {}", b(c), k));
+        // pairs separated by a relative 2^-30 (well above the rounding of pow): strict order
+        let c2 = c * (1.0 + 2f64.powi(-30));
+        if c2 < 1.0 {
+            o.op(&format!("mono {} {} {}", b(c), b(c2), k));
+        }
+        // adjacent doubles: never in the wrong order
+        let c3 = f64::from_bits(c.to_bits() + r.range(1, 4));
+        if c3 <= 1.0 {
+            o.op(&format!("monole {} {} {}", b(c), b(c3), k));
+        }
+    }
+
+    // ---- stream 2: private intermediates (bit-for-bit against the Float transcription)
+    o.case("intermediates");
+    let n = if thorough { 30_000 } else { 3_000 };
+    for i in 0..n {
+        if i % 500 == 0 && i > 0 {
+            o.case("intermediates");
+        }
+        let k = if i % 4 == 0 { *r.pick(&KS) } else { r.range(7, 51) };
+        let scaled = match r.below(5) {
+            0 => 1,
+            1 => r.range(2, 10),
+            2 => r.range(11, 1000),
+            3 => 1000,
+            _ => r.range(1001, 10_000),
+        };
+        let ns = n_values(scaled, &mut r, true);
+        let nk = *r.pick(&ns);
+        let r1 = match r.below(6) {
+            0 => 0.0,
+            1 => 1e-7,
+            2 => 0.9999999,
+            3 => (r.next() >> 11) as f64 / (1u64 << 53) as f64 * 0.1,
+            _ => (r.next() >> 11) as f64 / (1u64 << 53) as f64,
+        };
+        o.op(&format!("mid q {} {}", k, b(r1)));
+        o.op(&format!("mid expn {} {} {}", nk, k, b(r1)));
+        o.op(&format!("mid varn {} {} {}", nk, k, b(r1)));
+        o.op(&format!("mid expsq {} {} {}", nk, k, b(r1)));
+        let c = r.range(1, 399) as f64 / 400.0;
+        let ani = ani_from_containment(c, k as f64);
+        o.op(&format!("mid pnc {} {} {} {}", b(ani), k, scaled, nk));
+        let conf = *r.pick(&CONFS);
+        // any z exercises the arithmetic; the typical ones are the normal quantiles 1.28 .. 2.58
+        let z = [1.2815515655446004, 1.6448536269514722, 1.959963984540054, 2.241402727604947, 2.5758293035489004]
+            [r.below(5) as usize];
+        // probe points: the bracket ends, the point estimate's distance, anything in between
+        let pest = match r.below(4) {
+            0 => 0.0000001,
+            1 => 0.9999999,
+            2 => 1.0 - ani,
+            _ => (r.next() >> 11) as f64 / (1u64 << 53) as f64,
+        };
+        o.op(&format!("mid f12 {} {} {} {} {} {} {}", b(c), k, scaled, nk, conf_s(conf), b(z), b(pest)));
+    }
+
+    // ---- stream 3: the confidence interval on the grid
+    o.case("ci-grid");
+    // quick: 13 c × 5 k × 6 scaled × ~10 n × 3 conf ≈ 10^4 ; thorough: 99 c × 9 k × 9 scaled × ~13 n × 6 conf
+    let cs: Vec<u64> = if thorough {
+        (1..400).step_by(4).collect()
+    } else {
+        vec![1, 2, 10, 40, 100, 160, 200, 240, 300, 360, 390, 398, 399]
+    };
+    let ks: Vec<u64> = if thorough { KS.to_vec() } else { vec![7, 21, 31, 41, 51] };
+    let scaleds: Vec<u64> = if thorough {
+        vec![1, 2, 10, 100, 1000, 2000, 5000, 9999, 10_000]
+    } else {
+        vec![1, 10, 100, 1000, 7919, 10_000]
+    };
+    for &k in &ks {
+        for &scaled in &scaleds {
+            o.case(&format!("ci-grid k={} scaled={}", k, scaled));
+            let ns = n_values(scaled, &mut r, thorough);
+            for &n in &ns {
+                for &ci in &cs {
+                    let c = ci as f64 / 400.0;
+                    let confs: Vec<Option<f64>> = if thorough {
+                        CONFS.to_vec()
+                    } else {
+                        vec![*r.pick(&CONFS)]
+                    };
+                    for conf in confs {
+                        o.op(&format!("ci {} {} {} {} {}", b(c), k, scaled, n, conf_s(conf)));
+                    }
+                }
+            }
+        }
+    }
+    // random off-grid points
+    let n = if thorough { 40_000 } else { 3_000 };
+    for i in 0..n {
+        if i % 500 == 0 {
+            o.case("ci-random");
+        }
+        let k = r.range(7, 51);
+        let scaled = if r.chance(1, 4) { 1 } else { r.range(1, 10_000) };
+        let ns = n_values(scaled, &mut r, true);
+        let nk = *r.pick(&ns);
+        let c = r.range(1, 399_999) as f64 / 400_000.0;
+        let conf = if r.chance(1, 3) { *r.pick(&CONFS) } else { Some(0.8 + r.below(1901) as f64 / 10_000.0) };
+        o.op(&format!("ci {} {} {} {} {}", b(c), k, scaled, nk, conf_s(conf)));
+    }
+
+    // ---- stream 4: gather's ANI fields
+    o.case("gather");
+    let n = if thorough { 4_000 } else { 400 };
+    for _ in 0..n {
+        let k = *r.pick(&[21u64, 31, 51, 7]);
+        let scaled = *r.pick(&[1u64, 2, 10, 100, 1000]);
+        let universe = r.range(20, 120);
+        let pickset = |r: &mut Rng, p: u64| -> Vec<u64> { (1..=universe).filter(|_| r.chance(p, 8)).collect() };
+        let mut orig = pickset(&mut r, 5);
+        let mut mat = pickset(&mut r, 4);
+        // at least ten hashes on each side
+        for h in 1..=10u64 {
+            if orig.len() < 10 && !orig.contains(&h) {
+                orig.push(h);
+            }
+            if mat.len() < 10 && !mat.contains(&(universe + h)) {
+                mat.push(universe + h);
+            }
+        }
+        orig.sort();
+        mat.sort();
+        // the remaining query is a subset of the original one (rank 0: the same)
+        let remaining: Vec<u64> = if r.chance(1, 2) {
+            orig.clone()
+        } else {
+            orig.iter().cloned().filter(|_| r.chance(3, 4)).collect()
+        };
+        let match_size = r.range(0, mat.len() as u64);
+        let conf = *r.pick(&CONFS);
+        let calc_ci = r.chance(2, 3);
+        o.op(&format!(
+            "gather {} {} {} {} {} {} {} {}",
+            k,
+            scaled,
+            conf_s(conf),
+            calc_ci as u8,
+            show_nats(orig),
+            show_nats(remaining),
+            show_nats(mat),
+            match_size
+        ));
     }
 }
 
